@@ -1044,13 +1044,13 @@ def main(tier, replay):
     step = 1100
     for lo in range(0, len(fam), step):
         jobs.append({'type': 'bulk', 'binary': binary, 'seed': seed0 + len(jobs), 'family': (lo, lo + step), 'active': active, 'maxdepth': maxdepth})
-    nexpr, per = (300000, 1000) if thorough else (8000, 400)
+    nexpr, per = (300000, 1000) if thorough else (40000, 800)
     for _ in range(nexpr // per):
         jobs.append({'type': 'bulk', 'binary': binary, 'seed': seed0 + len(jobs), 'n': per, 'active': active, 'maxdepth': maxdepth})
-    nerr, per = (5000, 100) if thorough else (300, 60)
+    nerr, per = (5000, 100) if thorough else (1200, 60)
     for _ in range(nerr // per):
         jobs.append({'type': 'error', 'binary': binary, 'seed': seed0 + len(jobs), 'n': per, 'active': active})
-    nseq, per = (8000, 100) if thorough else (500, 50)
+    nseq, per = (8000, 100) if thorough else (2000, 50)
     for _ in range(nseq // per):
         jobs.append({'type': 'seq', 'binary': binary, 'seed': seed0 + len(jobs), 'n': per, 'active': active})
     chk.rng.shuffle(jobs)
